@@ -207,9 +207,11 @@ Proof. intro H. unfold density_iteration. apply Qle_bool_iff in H. rewrite H. re
 (** ** the refutation for the code before the repair: an oscillating oracle (pressure step of height 2 amp at rho_star)
        makes 50 capped Newton steps alternate around rho_star and the loop falls through to Ok with |p - p_target| = T amp. *)
 Definition step_oracle (T a b amp rs : Q) (rho : Q) : Q * Q * Q :=
-  (T * rho / (1 - b * rho) - a * rho * rho + T * amp * (if Qltb rho rs then -1 else 1),
-   T / ((1 - b * rho) * (1 - b * rho)) - 2 * a * rho,
-   2 * b * T / ((1 - b * rho) * (1 - b * rho) * (1 - b * rho)) - 2 * a).
+  let u := 1 - b * rho in
+  let u2 := u * u in
+  (T * rho / u - a * rho * rho + T * amp * (if Qltb rho rs then -1 else 1),
+   T / u2 - 2 * a * rho,
+   2 * b * T / (u2 * u) - 2 * a).
 
 Definition osc_oracle := step_oracle 300 0 0 (1 # 100) (4 # 1000).
 Definition osc_target : Q := 300 * (4 # 1000).
@@ -381,14 +383,19 @@ Proof. vm_compute. eexists. reflexivity. Qed.
 (* ------------------------------------------------------------------------------------------- *)
 (** * Running the model for the correspondence check *)
 
-(** rounding of the stored density to a 2^-140 grid keeps the rationals small (the implementation rounds to 53 bits) *)
-Definition rnd140 (q : Q) : Q := Qfloor (q * inject_Z (2 ^ 140)) # (2 ^ 140).
+(** rounding of the stored density to a 2^-70 grid keeps the rationals small (the implementation rounds to 53 bits, i.e. a 2^-59 grid at rho ~ 0.01) *)
+Definition rnd_grid (k : positive) (q : Q) : Q := Qfloor (q * inject_Z (Zpos (2 ^ k))) # (2 ^ k).
+Definition rnd140 (q : Q) : Q := rnd_grid 70 q.
+(** the oracle of the mock: [step_oracle] with its three outputs rounded to a 2^-80 grid (any function is an oracle;
+    the rounding is 8 orders of magnitude below the f64 noise of the implementation and keeps the rationals small) *)
+Definition mock_oracle (T a b amp rs : Q) (rho : Q) : Q * Q * Q :=
+  let '(p, dp, d2p) := step_oracle T a b amp rs rho in (rnd_grid 80 p, rnd_grid 80 dp, rnd_grid 80 d2p).
 
 Definition dyq (m e : Z) : Q := inject_Z m * (if (0 <=? e)%Z then inject_Z (2 ^ e) else / inject_Z (2 ^ (- e))).
-(** printed values are rounded down to a 2^-200 grid (printing huge exact fractions is slow); the exponent is printed *)
-Definition enc_q (q : Q) : Z * Z := (Qfloor (q * inject_Z (2 ^ 200)), 200%Z).
+(** printed values are rounded down to a 2^-100 grid (printing huge exact fractions is slow); the exponent is printed *)
+Definition enc_q (q : Q) : Z * Z := (Qfloor (q * inject_Z (2 ^ 100)), 100%Z).
 Definition enc_res (r : di_result) : Z * (Z * Z) :=
   match r with DOk rho => (0%Z, enc_q rho) | DErr c => (c, (0%Z, 0%Z)) end.
 Definition run_di (T a b amp rs maxd ptarget rho0 : Q) :=
-  let '(r, tr) := density_iteration (step_oracle T a b amp rs) maxd ptarget rnd140 true rho0 in
+  let '(r, tr) := density_iteration (mock_oracle T a b amp rs) maxd ptarget rnd140 true rho0 in
   (enc_res r, map (fun e => (fst e, enc_q (snd e))) (rev tr)).
